@@ -60,6 +60,9 @@ pub enum Exec {
     If { arms: Vec<(Expr, Vec<Exec>)>, els: Option<Vec<Exec>> },
     Foreach { array: Expr, item: String, index: Option<String>, body: Vec<Exec> },
     Log(Expr),
+    /// <script> with literal source whose execution is an error (e.g. a write to a read-only system variable with
+    /// an operator of the expression language): error.execution, the rest of the block is skipped
+    FailingScript(String),
     /// <send> through the SCXML processor. target: None = own external queue, Some("#_internal"), ...
     Send {
         event: String,
@@ -235,6 +238,7 @@ fn render_exec(out: &mut String, x: &Exec, dm: Dm, ind: usize) {
             out.push_str(&format!("{}</foreach>\n", pad));
         }
         Exec::Log(e) => out.push_str(&format!("{}<log expr=\"{}\"/>\n", pad, esc(&render_expr(e, dm)))),
+        Exec::FailingScript(src) => out.push_str(&format!("{}<script>{}</script>\n", pad, esc(src))),
         Exec::Send { event, target, delay_ms, id, params, delay_text, delay_expr, idlocation } => {
             out.push_str(&format!("{}<send event=\"{}\"", pad, event));
             if let Some(t) = target {
@@ -793,7 +797,12 @@ impl<'a> G<'a> {
                 }
                 5 => {
                     let loc = ["_sessionid", "_name", "_event", "_ioprocessors", "_event.name", "_event.type", "_event.data"];
-                    if self.rng.chance(1, 4) {
+                    if self.p.dm == Dm::Rfsm && self.rng.chance(1, 5) {
+                        // the "assign if undefined" operator of rfsm-expression inside a <script>: it may create a
+                        // location, it may not write to a system variable
+                        let sys = *self.rng.pick(&["_sessionid", "_name", "_ioprocessors"]);
+                        Exec::FailingScript(format!("{} ?= 99", sys))
+                    } else if self.rng.chance(1, 4) {
                         // a system variable as the item (or index) of a <foreach>: not a legal location either
                         // (not _event: before the first event it is not bound yet, what a write does then is nobody's business)
                         let sys = *self.rng.pick(&["_sessionid", "_name", "_ioprocessors"]);
